@@ -71,6 +71,16 @@ pub fn v_to_cell(addr: &str, v: &V) -> trust_runtime::value::Value {
 /// Like `run_text`; before cycle k the values `inputs[k]` = (direct address, value) are written
 /// into the input image through the public direct-I/O API (what an I/O driver does).
 pub fn run_text_inputs(text: &str, cycles: usize, inputs: &[Vec<(String, trust_runtime::value::Value)>]) -> Result<Vec<CycleObs>, String> {
+    run_text_full(text, cycles, inputs, None)
+}
+
+/// `budget_ms`: execution budget per cycle (default 8 s, which no terminating corpus program reaches).
+pub fn run_text_full(
+    text: &str,
+    cycles: usize,
+    inputs: &[Vec<(String, trust_runtime::value::Value)>],
+    budget_ms: Option<u64>,
+) -> Result<Vec<CycleObs>, String> {
     let mut h = match crate::fw::catch(|| TestHarness::from_source(text)) {
         Ok(Ok(h)) => h,
         Ok(Err(e)) => return Err(e.to_string()),
@@ -89,7 +99,7 @@ pub fn run_text_inputs(text: &str, cycles: usize, inputs: &[Vec<(String, trust_r
             }
         }
         h.runtime_mut()
-            .set_execution_deadline(Some(std::time::Instant::now() + std::time::Duration::from_secs(8)));
+            .set_execution_deadline(Some(std::time::Instant::now() + std::time::Duration::from_millis(budget_ms.unwrap_or(8000))));
         let r = crate::fw::catch(|| h.cycle());
         match r {
             Ok(res) => {
